@@ -1713,6 +1713,15 @@ func (dryRunDriver) Snapshot(context.Context) (migrate.RestoreFunc, error) {
 	return func(context.Context) error { return nil }, nil
 }
 
+// ScanStmts implements the migrate.StmtScanner interface. A dry-run scans the
+// files the same way the wrapped driver does, if it has a scanner of its own.
+func (d dryRunDriver) ScanStmts(input string) ([]*migrate.Stmt, error) {
+	if s, ok := d.Driver.(migrate.StmtScanner); ok {
+		return s.ScanStmts(input)
+	}
+	return migrate.Stmts(input)
+}
+
 // WriteRevision overrides the wrapped migrate.RevisionReadWriter to not saved any changes to revisions.
 func (dryRunRevisions) WriteRevision(context.Context, *migrate.Revision) error {
 	return nil
